@@ -21,6 +21,7 @@ def handle (j : Json) : Except String Json := do
   | "hoist" => Driver.hoist j
   | "cursor" => Driver.cursor j
   | "rankids" => Driver.rankids j
+  | "tmp_issued" => Driver.tmpIssued j
   | "ft_op" => Driver.ftOp j
   | "ft_fiber" => Driver.ftFiber j
   | "ft_project" => Driver.ftProject j
